@@ -8,4 +8,9 @@ TEXT = {
   "note": "trusted: Lean kernel (+propext, Classical.choice, Quot.sound), the hand-written model being the code (checked by differential run, not proved), harness/driver glue, GMP. Rational intervals and the other scalar abstractions are not yet modelled.",
   "technique": "Lean 4 theorems over a hand-written executable model + exact differential correspondence (harness|crabdrv) with concrete-witness search",
  },
+ "C06": {
+  "level": "proof (partial): the Lean model Crab.Fix.run transcribes wto_iterator (vertex/cycle visits, skipping until the start block, assumption strengthening, delay/extrapolate, descending refine); theorems so far: extrapolation is join up to widening_delay and widening after, first refinement is meet. The exactness statement itself (tables = least solution) is decided on every run by comparing the REAL iterator, driven with a finite-powerset client value type, against the Kleene least fixpoint and against the model (>6*10^4 random CFGs per quick run); the Lean proof of run_exact over the model is in progress",
+  "note": "trusted: Lean kernel, model = code only by differential run, WTO/nesting/predecessor order taken from the implementation (C07 checks them), harness/driver glue",
+  "technique": "Lean 4 model of the iterator + exact differential correspondence against the real iterator with a finite powerset value type and a Kleene least-fixpoint oracle",
+ },
 }
